@@ -412,10 +412,8 @@ def gen_history(rng, stream: str = "main", max_ops: int = 40) -> Hist:
             # the Discriminator around the container; a Union base below Optional flattens to Union[A, B, None]
             shape = rng.choice(OUTER_SHAPES if (len(bases) == 1 or mode_field) else ["a_list", "a_dict"])
         tagger = mode_field and use_tagger and rng.random() < 0.6
-        # (X4) known finding optional-union-nonetype-variant: Optional[Union[A, B]] flattens to Union[A, B, None]; with
-        # include_supertypes NoneType is a variant and a tagger makes the refill compile it (TypeError)
-        if shape in ("a_opt", "a_listopt") and len(bases) > 1 and sup and tagger:
-            shape = "a_list"
+        # known finding optional-union-nonetype-variant (Optional[Union[A, B]] + include_supertypes + tagger: the refill
+        # crashes on NoneType) is IN the model (Discr.crash_on_refill); the oracle classifies those failures by signature
         return {"wiring": wiring, "bases": bases, "sub": sub, "sup": sup, "field": mode_field, "fid": rng.choice(key_ids),
                 "tagger": tagger, "tgid": rng.randrange(2), "config": False, "shape": shape}
 
@@ -675,6 +673,12 @@ def outcome_of_exc(e: BaseException):
             cur = cur.__cause__ or cur.__context__
             n += 1
         cur, n = e, 0
+        while cur is not None and n < 6:       # the refill tripped over the NoneType member of a flattened Optional[Union[..]]
+            if type(cur) is TypeError and "immutable type 'NoneType'" in str(cur):
+                return ("crash",)
+            cur = cur.__cause__ or cur.__context__
+            n += 1
+        cur, n = e, 0
         while cur is not None and n < 6:       # the dispatcher's own answer to a non-mapping input
             if type(cur) is ValueError and "discriminated by" in str(cur) and "should be a dict instance" in str(cur):
                 return ("notdict",)
@@ -869,8 +873,10 @@ def run_history(h: Hist):
                     exp[1].append(e1[1])
                 if exp is not None and exp != obs:
                     kf = exp[0] == "keyerr" and obs == ("notfound",)
+                    kf2 = obs == ("crash",) and any(site_has_none(h.sites[si]) and h.sites[si]["sup"] and h.sites[si]["tagger"] for si, _, _ in op[1])
                     fails.append((k, f"{step['call']}({ {f: i for f, _, i in step['multi']} }) -> {fmt(obs)}, expected {fmt(exp)}",
-                                  fmt(exp), fmt(obs), {"kind": "variant-keyerror-misreported" if kf else "field-dispatch", "wiring": "holder-multi"}))
+                                  fmt(exp), fmt(obs), {"kind": "variant-keyerror-misreported" if kf else
+                                                       "optional-union-nonetype-variant" if kf2 else "field-dispatch", "wiring": "holder-multi"}))
                 continue
             s = h.sites[op[1]]
             if op[0] == "decodebad":
@@ -890,8 +896,10 @@ def run_history(h: Hist):
                 flags[oi] = uq
                 if exp is not None and exp != obs:
                     kf = exp[0] == "keyerr" and obs == ("notfound",)
+                    kf2 = obs == ("crash",) and site_has_none(s) and s["sup"] and s["tagger"] and s["wiring"] == "holder"
                     fails.append((k, f"{step['call']}({step['input']}) -> {fmt(obs)}, expected {fmt(exp)}",
-                                  fmt(exp), fmt(obs), {"kind": "variant-keyerror-misreported" if kf else "field-dispatch", "wiring": s["wiring"]}))
+                                  fmt(exp), fmt(obs), {"kind": "variant-keyerror-misreported" if kf else
+                                                       "optional-union-nonetype-variant" if kf2 else "field-dispatch", "wiring": s["wiring"]}))
             else:
                 why, acc_sub, acc_sup = spec_nofield_check(ns, n_classes, s, step["input"], obs)
                 if why is not None:
@@ -929,6 +937,8 @@ def fmt(o) -> str:
         return "+".join(o[1])
     if o[0] == "notdict":
         return "ValueError(should be a dict instance)"
+    if o[0] == "crash":
+        return "TypeError(compiling NoneType)"
     return {"missing": "MissingDiscriminatorError", "notfound": "SuitableVariantNotFoundError"}.get(o[0], o[0])
 
 
@@ -948,10 +958,15 @@ def coq_inkeys(d: dict) -> str:
     return "[" + "; ".join(f"({int(k)}, {'Unhashable' if v == 'U' else 'Hashable %d' % int(v)})" for k, v in sorted(d.items())) + "]"
 
 
+def site_has_none(s: dict) -> bool:
+    """Annotated[Optional[Union[A, B]], D] flattens to Union[A, B, None]: NoneType is one of the base variants"""
+    return s.get("shape") in ("a_opt", "a_listopt") and len(s["bases"]) > 1 and not s.get("config")
+
+
 def coq_site(s: dict) -> str:
     b = vlib.coq_bool
     return (f"Site {coq_nats(s['bases'])} {b(s['sub'])} {b(s['sup'])} {b(s['field'])} {b(s['tagger'])} {b(s['config'])} "
-            f"{b(s['wiring'] == 'codec')} {int(s.get('fid', 0))} {int(s.get('tgid', 0))}")
+            f"{b(s['wiring'] == 'codec')} {int(s.get('fid', 0))} {int(s.get('tgid', 0))} {b(site_has_none(s))}")
 
 
 def coq_op(op) -> str:
@@ -981,6 +996,8 @@ def coq_outcome(o) -> str:
         return "Some ONotFound"
     if o[0] == "notdict":
         return "Some ONotDict"
+    if o[0] == "crash":
+        return "Some OCrash"
     if o[0] == "keyerr" and o[1].startswith("C") and o[1][1:].isdigit():
         return f"Some (OKeyErr {int(o[1][1:])})"
     if o[0] == "rej" and o[1].startswith("C") and o[1][1:].isdigit():
@@ -1221,6 +1238,20 @@ def fixed_histories() -> list[Hist]:
         ev += [("decode", skey, 2, [9]), ("decode", skey, None, [9]), ("decode", skey, None, [7]), ("decode", skey, 1, []),
                ("decode", skey, None, [7, KERR_MARKER])]
     out.append(build_fixed("mixed", "str", cl, st, ev))
+    # known finding optional-union-nonetype-variant, in the model: Annotated[Optional[Union[C0, C1]], D(sup, tagger)] through
+    # a holder - every registry miss crashes after registering the real classes, the same input works afterwards; a codec
+    # with the same annotation is not affected
+    cl = [dict(ttags=[5]), dict(parents=[0], ttags=[6]), dict(parents=[1], ttags=[7])]
+    st = [dict(wiring="holder", bases=[0, 1], sub=True, sup=True, tagger=True, shape="a_opt"),
+          dict(wiring="codec", bases=[0, 1], sub=True, sup=True, tagger=True, shape="a_opt"),
+          dict(wiring="holder", bases=[0, 1], sub=False, sup=True, tagger=True, shape="a_listopt")]
+    ev = [("define", 0), ("define", 1), ("site", 0), ("site", 1), ("site", 2)]
+    for k in (0, 1, 2):
+        ev += [("decode", ("site", k), 6, []), ("decode", ("site", k), 6, []), ("decode", ("site", k), 5, []), ("decode", ("site", k), 9, [])]
+    ev += [("define", 2)]
+    for k in (0, 1, 2):
+        ev += [("decode", ("site", k), 7, []), ("decode", ("site", k), 7, []), ("decode", ("site", k), None, [])]
+    out.append(build_fixed("field", "str", cl, st, ev))
     # nested class-level dispatchers: own registry per declaring class (and per codec), class-level form never yields itself
     cl = [dict(config=cfg), dict(parents=[0], own_tag=1, config=cfg, decl="plain"), dict(parents=[1], own_tag=2, decl="plain"),
           dict(parents=[0], own_tag=3, decl="plain"), dict(parents=[1], own_tag=4, decl="plain")]
@@ -1378,7 +1409,7 @@ def probe_optional_union(ctx: vlib.Ctx, n: int):
             ctx.hist("wiring", wiring + "-optional-union")
             exp = ("inst", target)
             if obs != exp:
-                kf = obs[0].startswith("exc") and "immutable type 'NoneType'" in root
+                kf = obs == ("crash",) and "immutable type 'NoneType'" in root and wiring == "holder"
                 ctx.fail(f"{step['call']}({step['input']}) over {ty} -> {fmt(obs)}, expected {target}",
                          {"entry": "history", "script": script, "failing_step": 2, "expected": target, "observed": fmt(obs)},
                          {"kind": "optional-union-nonetype-variant" if kf else "field-dispatch", "wiring": wiring})
@@ -1391,7 +1422,7 @@ def probe_optional_union(ctx: vlib.Ctx, n: int):
 # ---------------------------------------------------------------------------
 
 CODE_THEOREMS = ["C12_code_variants", "C12_code_exceptions"]
-THEOREMS = ["C12_registry_invariant", "C12_registry", "C12_missing_tag", "C12_present_keys_not_missing", "C12_nested_missing_key", "C12_multi_field", "C12_variant_keyerror_refuted", "C12_dispatch_ref", "C12_history_independent_full", "C12_uniq_all_decidable", "C12_unhashable_tag", "C12_non_mapping", "C12_history_independent",
+THEOREMS = ["C12_registry_invariant", "C12_registry", "C12_missing_tag", "C12_present_keys_not_missing", "C12_nested_missing_key", "C12_multi_field", "C12_variant_keyerror_refuted", "C12_dispatch_ref", "C12_history_independent_full", "C12_uniq_all_decidable", "C12_optional_union_refuted", "C12_unhashable_tag", "C12_non_mapping", "C12_history_independent",
             "C12_eligible_exact", "C12_nofield", "C12_trace_event", "C12_tag_unique_decidable",
             "C12_nonunique_order_dependent", "C12_class_level_self_excluded",
             "C12_nofield_inherited_unpacker_refuted"]
@@ -1425,8 +1456,9 @@ def run(ctx: vlib.Ctx):
         "plain_carriers / no_nested, the nested behaviour itself is in the model and in the correspondence",
         "(X2) no-field mode through an Annotated holder over plain (non-mixin) dataclasses is generated only in the "
         "known-finding stream (finding C12/nofield-inherited-unpacker)",
-        "(X4) Annotated[Optional[Union[..]], D] with include_supertypes and a tagger is generated only in the probe of known "
-        "finding C12/optional-union-nonetype-variant",
+        "Annotated[Optional[Union[..]], D] with include_supertypes and a tagger (known finding optional-union-nonetype-variant) "
+        "is in the model (crash_on_refill; theorems carry the hypothesis no_crash / crash_on_refill s = false, refuted "
+        "without it: C12_optional_union_refuted); the oracle classifies those failures by signature",
         "C12_registry has the hypothesis no_keyerror (the selected class's own from_dict does not leak a KeyError); the "
         "full statement is refuted in the faithful model (C12_variant_keyerror_refuted, known finding variant-keyerror-"
         "misreported): the oracle reports those inputs as the known finding",
